@@ -1,6 +1,707 @@
 // Contract harnesses for ntp-proto/src/packet/extension_fields.rs (child module: sees private items).
-#![allow(unused_imports)]
+// Properties: C23/C22 (every decoder function is total), C24 (per-field round trip), C14 (size
+// contracts of the encoders), C25 (what the cipher is handed; what is promoted to authenticated).
+#![allow(unused_imports, dead_code)]
 use super::*;
+use std::io::Cursor;
+use crate::verif_common::harness;
+use std::sync::atomic::{AtomicBool, AtomicU64, AtomicU8, AtomicUsize, Ordering::Relaxed};
+
+type PErr = ParsingError<std::convert::Infallible>;
+const V4: ExtensionHeaderVersion = ExtensionHeaderVersion::V4;
+const V5: ExtensionHeaderVersion = ExtensionHeaderVersion::V5;
+
+// ---------------------------------------------------------------- generators
+
+pub(crate) use crate::packet::verif::{
+    any_field, any_model_cipher, any_prefix, any_refid_request, any_version, ModelCipher, DEC_AAD, DEC_CALLS, DEC_CT, DEC_NONCE,
+    ENC_AAD, ENC_CALLS, ENC_PT_LEN,
+};
+use crate::packet::NoCipher;
+
+// `core::str::from_utf8` (word-at-a-time validation with pointer alignment) does not finish in
+// CBMC on symbolic bytes. Model with the same observable result, built from std's byte-wise
+// `Utf8Chunks` decomposition: Ok(the input as str) iff the input is one valid chunk. The error
+// value is obtained from the real validator on a fixed invalid byte (callers here ignore its
+// contents). Assumption A-utf8: from_utf8 accepts exactly the inputs Utf8Chunks reports as valid.
+pub(crate) fn from_utf8_model(v: &[u8]) -> Result<&str, core::str::Utf8Error> {
+    let mut chunks = v.utf8_chunks();
+    match chunks.next() {
+        None => Ok(""),
+        Some(c) if c.invalid().is_empty() => Ok(c.valid()),
+        Some(_) => {
+            let mut bad = [0xFFu8];
+            Err(core::str::from_utf8_mut(&mut bad).unwrap_err())
+        }
+    }
+}
+
+// ================================================================ C23 / C22: leaf arithmetic
+
+/// next_multiple_of_{u16,usize}(x, 4): no panic for every x; for x <= MAX-3 the result is the
+/// least multiple of 4 that is >= x; above that it wraps to 0 (callers never get there, see the
+/// contracts of from_message_bytes / deserialize / encode_framing below).
+#[kani::proof]
+fn c23_p_next_multiple_of() {
+    let x: u16 = kani::any();
+    let r = next_multiple_of_u16(x, 4);
+    if x <= u16::MAX - 3 {
+        assert!(r >= x && r - x < 4 && r % 4 == 0);
+    } else {
+        assert!(r == 0);
+    }
+    let y: usize = kani::any();
+    let s = next_multiple_of_usize(y, 4);
+    if y <= usize::MAX - 3 {
+        assert!(s >= y && s - y < 4 && s % 4 == 0);
+    } else {
+        assert!(s == 0);
+    }
+    // (every call site passes the literal 4: anchor-checked in the unit)
+    kani::cover!(x == u16::MAX && y == usize::MAX, "wrap case reachable");
+}
+#[kani::proof]
+fn c23_canary_next_multiple_of_zero_divisor() {
+    let _ = next_multiple_of_u16(kani::any(), kani::any());
+}
+
+/// type-id mapping is a bijection on u16 (decode of any type id, re-encode gives it back)
+#[kani::proof]
+fn c23_p_type_id_total() {
+    let t: u16 = kani::any();
+    let id = ExtensionFieldTypeId::from_type_id(t);
+    assert!(id.to_type_id() == t);
+    assert!(matches!(id, ExtensionFieldTypeId::Unknown { .. })
+        == !matches!(t, 0x104 | 0x204 | 0x304 | 0x404 | 0xF5FF | 0xF501 | 0xF503 | 0xF504));
+    kani::cover!(t == 0x404, "reachable");
+}
+
+// ================================================================ C23 / C22: RawExtensionField
+
+// The functions below are loop-free; the bound only limits the slice length that is explored:
+// quick = 1100 (covers the server's 1024-byte receive buffer), thorough = 4100 (C23: 0..4096).
+const QN: usize = 1100;
+const TN: usize = 4100;
+
+/// RawExtensionField::deserialize: no panic for every input length up to the bound, every
+/// minimum size and both versions (loop-free: complete).
+/// Ok  =>  len >= 4, declared length L >= minimum, L >= 4, (V4: L % 4 == 0), roundup4(L) <= len,
+///         message_bytes == data[4..L], type id from the first two bytes.
+/// Err <=  any of these fails (so Ok <=> all hold).
+fn raw_field_deserialize_total<const RAW_N: usize>() {
+    let data: [u8; RAW_N] = kani::any();
+    let len: usize = kani::any();
+    kani::assume(len <= RAW_N);
+    let d = &data[..len];
+    let minimum: usize = kani::any();
+    let version = any_version();
+    let res = RawExtensionField::deserialize(d, minimum, version);
+    let ok_spec = len >= 4 && {
+        let l = u16::from_be_bytes([d[2], d[3]]) as usize;
+        l >= minimum && l >= 4 && (version == V5 || l % 4 == 0) && (l + 3) / 4 * 4 <= len
+    };
+    match res {
+        Ok(f) => {
+            assert!(ok_spec);
+            let l = u16::from_be_bytes([d[2], d[3]]) as usize;
+            assert!(f.message_bytes.len() == l - 4);
+            assert!(f.message_bytes.len() <= 65_531);
+            let i: usize = kani::any();
+            kani::assume(i < l - 4);
+            assert!(f.message_bytes[i] == d[4 + i]);
+            assert!(f.type_id.to_type_id() == u16::from_be_bytes([d[0], d[1]]));
+            // contract used by the streamer: the field's wire length fits in the input
+            let w = f.wire_length(version);
+            assert!(w == (l + 3) / 4 * 4 && w >= 4 && w <= len);
+        }
+        Err(ParsingError::IncorrectLength) => assert!(!ok_spec),
+        Err(_) => panic!("unexpected error kind"),
+    }
+    kani::cover!(len == RAW_N, "largest input reachable");
+    kani::cover!(RawExtensionField::deserialize(d, minimum, version).is_ok() && version == V5 && d[3] % 4 == 1, "V5 unaligned length accepted");
+}
+#[kani::proof]
+fn c23_b_raw_field_deserialize_total() {
+    raw_field_deserialize_total::<QN>();
+}
+#[kani::proof]
+fn c23_tb_raw_field_deserialize_total() {
+    raw_field_deserialize_total::<TN>();
+}
+#[kani::proof]
+fn c23_canary_raw_field_v4_accepts_unaligned() {
+    let data: [u8; 16] = kani::any();
+    kani::assume(data[2] == 0 && data[3] == 6);
+    assert!(RawExtensionField::deserialize(&data, 4, V4).is_ok());
+}
+
+/// wire_length: no panic under the invariant established by deserialize (V4: header + message
+/// is a multiple of 4); result = header + message rounded up to a word; >= 4 (progress).
+#[kani::proof]
+fn c23_p_wire_length() {
+    let data = [0u8; 65_531];
+    let n: usize = kani::any();
+    kani::assume(n <= 65_531);
+    let version = any_version();
+    kani::assume(version == V5 || (n + 4) % 4 == 0);
+    let f = RawExtensionField { type_id: ExtensionFieldTypeId::from_type_id(kani::any()), message_bytes: &data[..n] };
+    let w = f.wire_length(version);
+    assert!(w == (n + 4 + 3) / 4 * 4 && w >= 4 && w <= 65_536);
+    kani::cover!(n == 65_531, "largest reachable");
+}
+/// canary: without that invariant the V4 debug assertion fires
+#[kani::proof]
+fn c23_canary_wire_length_v4_unaligned() {
+    let data = [0u8; 8];
+    let n: usize = kani::any();
+    kani::assume(n <= 8);
+    let f = RawExtensionField { type_id: ExtensionFieldTypeId::NtsCookie, message_bytes: &data[..n] };
+    let _ = f.wire_length(V4);
+}
+
+// ================================================================ C23 / C22: ExtensionFieldStreamer
+
+/// One step of the streamer from EVERY state (any offset, cutoff, minimum, version) over every
+/// buffer of length <= the bound: no panic, and the step contract that gives termination and
+/// in-bounds offsets for every caller loop:
+///   Some(Ok((o, f)))  => o == old offset, new offset == o + wire(f), old < new <= buffer.len(),
+///                        more than `cutoff` bytes were left at o
+///   Some(Err(_))      => new offset == buffer.len()  (the next call returns None: cutoff >= 0)
+///   None              => offset unchanged and (offset > len or at most `cutoff` bytes left)
+/// Termination of any `for` over the streamer: buffer.len() - offset strictly decreases on Ok
+/// and is 0 after Err.
+fn streamer_next_step<const RAW_N: usize>() {
+    let data: [u8; RAW_N] = kani::any();
+    let len: usize = kani::any();
+    kani::assume(len <= RAW_N);
+    let buffer = &data[..len];
+    let version = any_version();
+    let mut s = ExtensionFieldStreamer { buffer, cutoff: kani::any(), minimum_size: kani::any(), offset: kani::any(), version };
+    let (old, cutoff) = (s.offset, s.cutoff);
+    match s.next() {
+        Some(Ok((o, f))) => {
+            assert!(o == old);
+            assert!(len - old > cutoff);
+            let w = f.wire_length(version);
+            assert!(s.offset == old + w && s.offset > old && s.offset <= len);
+            assert!(f.message_bytes.len() + 4 <= w && w < f.message_bytes.len() + 8);
+        }
+        Some(Err(_)) => {
+            assert!(s.offset == len && old <= len && len - old > cutoff);
+            assert!(s.next().is_none());
+        }
+        None => assert!(s.offset == old && (old > len || len - old <= cutoff)),
+    }
+    kani::cover!(len == RAW_N, "largest buffer reachable");
+}
+#[kani::proof]
+fn c23_b_streamer_next_step() {
+    streamer_next_step::<QN>();
+}
+#[kani::proof]
+fn c23_tb_streamer_next_step() {
+    streamer_next_step::<TN>();
+}
+/// bounded cross-check of the loop itself: iterating a buffer of <= 24 bytes ends after at most
+/// 6 fields, offsets are increasing and in bounds (unwinding assertion = termination bound).
+#[kani::proof]
+#[kani::unwind(8)]
+fn c23_b_streamer_terminates() {
+    let data: [u8; 24] = kani::any();
+    let buffer = any_prefix(&data);
+    let version = any_version();
+    let cutoff: usize = kani::any();
+    let mut last = 0usize;
+    let mut count = 0usize;
+    for item in RawExtensionField::deserialize_sequence(buffer, cutoff, 4, version) {
+        count += 1;
+        match item {
+            Ok((o, f)) => {
+                assert!(o >= last && o + f.wire_length(version) <= buffer.len());
+                last = o + f.wire_length(version);
+            }
+            Err(_) => {}
+        }
+    }
+    assert!(count <= 6);
+    kani::cover!(count == 6, "six minimal fields reachable");
+}
+
+// ================================================================ C23 / C22: RawEncryptedField
+
+/// from_message_bytes: no panic for every message of length <= the bound;
+/// Ok => nonce == msg[4..4+nl], ciphertext == msg[cs..cs+cl] with cs = 4 + roundup4(nl), both in
+/// bounds; Ok <=> len >= 4 and both windows fit.
+fn encrypted_field_from_message_bytes_total<const RAW_N: usize>() {
+    let data: [u8; RAW_N] = kani::any();
+    let len: usize = kani::any();
+    kani::assume(len <= RAW_N);
+    let m = &data[..len];
+    let fits = len >= 4 && {
+        let nl = u16::from_be_bytes([m[0], m[1]]) as usize;
+        let cl = u16::from_be_bytes([m[2], m[3]]) as usize;
+        4 + nl <= len && 4 + (nl + 3) / 4 * 4 + cl <= len
+    };
+    match RawEncryptedField::from_message_bytes(m) {
+        Ok(e) => {
+            assert!(fits);
+            let nl = u16::from_be_bytes([m[0], m[1]]) as usize;
+            let cl = u16::from_be_bytes([m[2], m[3]]) as usize;
+            let cs = 4 + (nl + 3) / 4 * 4;
+            assert!(e.nonce.len() == nl && e.ciphertext.len() == cl);
+            let i: usize = kani::any();
+            kani::assume(i < nl);
+            assert!(e.nonce[i] == m[4 + i]);
+            let j: usize = kani::any();
+            kani::assume(j < cl);
+            assert!(e.ciphertext[j] == m[cs + j]);
+        }
+        Err(ParsingError::IncorrectLength) => assert!(!fits),
+        Err(_) => panic!("unexpected error kind"),
+    }
+    kani::cover!(len == RAW_N, "largest reachable");
+    kani::cover!(RawEncryptedField::from_message_bytes(m).is_ok() && m[1] % 4 == 1, "padded nonce accepted");
+}
+#[kani::proof]
+fn c23_b_encrypted_field_from_message_bytes_total() {
+    encrypted_field_from_message_bytes_total::<QN>();
+}
+#[kani::proof]
+fn c23_tb_encrypted_field_from_message_bytes_total() {
+    encrypted_field_from_message_bytes_total::<TN>();
+}
+#[kani::proof]
+fn c23_canary_encrypted_field_always_ok() {
+    let data: [u8; 16] = kani::any();
+    assert!(RawEncryptedField::from_message_bytes(&data).is_ok());
+}
+
+// ================================================================ C23 / C22: field decoders
+
+/// SPEC of a decoded field's wire size (header + payload, padded to a word)
+pub(crate) fn spec_wire(f: &ExtensionField<'_>) -> usize {
+    let payload = match f {
+        ExtensionField::UniqueIdentifier(d) | ExtensionField::NtsCookie(d) => d.len(),
+        ExtensionField::Unknown { data, .. } => data.len(),
+        ExtensionField::NtsCookiePlaceholder { cookie_length } => *cookie_length as usize,
+        ExtensionField::DraftIdentification(d) => d.len(),
+        ExtensionField::ReferenceIdRequest(r) => r.payload_len() as usize,
+        ExtensionField::ReferenceIdResponse(r) => r.bytes().len(),
+        ExtensionField::InvalidNtsEncryptedField => 0,
+        ExtensionField::Padding(n) => n.saturating_sub(4),
+    };
+    (payload + 4 + 3) / 4 * 4
+}
+
+// ================================================================ C23 / C25 / C17: ExtensionFieldData::deserialize
+
+const HDR: usize = 48;
+
+/// sum of the spec wire sizes of a field list
+fn spec_wire_sum(v: &[ExtensionField<'_>]) -> usize {
+    let mut n = 0;
+    for f in v {
+        n += spec_wire(f);
+    }
+    n
+}
+
+/// Without keys (NoCipher), every datagram whose extension part is <= EXT bytes:
+/// no panic, terminates (unwinding assertions); on Ok: nothing is authenticated/encrypted, no
+/// cookie; the decoder consumed exactly header + sum of the fields' wire sizes and the rest is
+/// `remaining_bytes` (V4: <= 24 bytes, the MAC candidate; V5: nothing)  [decoder half of C17];
+/// an NTS authenticator field is never accepted without keys (DecryptError, field marked invalid).
+fn efdata_deserialize_nokeys<const LEN: usize>(version: ExtensionHeaderVersion) {
+    let data: [u8; LEN] = kani::any();
+    let len: usize = kani::any();
+    kani::assume(len >= HDR && len <= LEN);
+    let d = &data[..len];
+    match ExtensionFieldData::deserialize(d, HDR, &NoCipher, version) {
+        Ok(r) => {
+            assert!(r.cookie.is_none());
+            assert!(r.efdata.authenticated.is_empty() && r.efdata.encrypted.is_empty());
+            let consumed = spec_wire_sum(&r.efdata.untrusted);
+            assert!(HDR + consumed + r.remaining_bytes.len() == len);
+            assert!(r.remaining_bytes.as_ptr() as usize == d.as_ptr() as usize + HDR + consumed);
+            match version {
+                ExtensionHeaderVersion::V4 => assert!(r.remaining_bytes.len() <= Mac::MAXIMUM_SIZE),
+                ExtensionHeaderVersion::V5 => assert!(r.remaining_bytes.is_empty()),
+            }
+            let i: usize = kani::any();
+            kani::assume(i < r.efdata.untrusted.len());
+            assert!(!matches!(r.efdata.untrusted[i], ExtensionField::InvalidNtsEncryptedField | ExtensionField::Padding(_)));
+        }
+        Err(ParsingError::DecryptError(inv)) => {
+            assert!(inv.efdata.authenticated.is_empty() && inv.efdata.encrypted.is_empty());
+            let mut seen = false;
+            for f in &inv.efdata.untrusted {
+                seen |= matches!(f, ExtensionField::InvalidNtsEncryptedField);
+            }
+            assert!(seen);
+        }
+        Err(_) => {}
+    }
+    kani::cover!(matches!(ExtensionFieldData::deserialize(d, HDR, &NoCipher, version), Ok(r) if r.efdata.untrusted.len() >= 2), "two fields accepted");
+    kani::cover!(matches!(ExtensionFieldData::deserialize(d, HDR, &NoCipher, version), Err(ParsingError::DecryptError(_))), "authenticator without keys reachable");
+}
+// V4: fields are only parsed while more than 24 bytes remain, so 40 extension bytes allow <= 4 fields
+#[kani::proof]
+#[kani::unwind(7)]
+#[kani::stub(core::str::from_utf8, from_utf8_model)]
+fn c23_tb_efdata_deserialize_nokeys_v4() {
+    efdata_deserialize_nokeys::<{ HDR + 40 }>(V4);
+}
+// V5: 16 extension bytes allow <= 4 fields
+#[kani::proof]
+#[kani::unwind(7)]
+#[kani::stub(core::str::from_utf8, from_utf8_model)]
+fn c23_tb_efdata_deserialize_nokeys_v5() {
+    efdata_deserialize_nokeys::<{ HDR + 16 }>(V5);
+}
+
+// ---------------------------------------------------------------- C25 quick: structured datagram
+/// One datagram with a FIXED layout and symbolic contents: header(48) | unique identifier
+/// (8 bytes) | authenticator (type 0x0404, length 28, nonce 16, ciphertext 4) [| 4 zero bytes of
+/// tail for NTPv4 so that the authenticator is still parsed]. The cipher's decrypt outcome is
+/// symbolic; its plaintext is one 8-byte cookie field. Same postconditions as the unstructured
+/// harnesses (c25_tb_*), cheap because type ids and lengths are concrete.
+#[kani::proof]
+#[kani::unwind(30)]
+#[kani::stub(core::str::from_utf8, from_utf8_model)]
+fn c25_tb_structured_one_authenticator() {
+    let mut data: [u8; HDR + 8 + 28] = kani::any();
+    data[HDR..HDR + 4].copy_from_slice(&[0x01, 0x04, 0x00, 0x08]);
+    data[HDR + 8..HDR + 16].copy_from_slice(&[0x04, 0x04, 0x00, 28, 0x00, 16, 0x00, 4]);
+    let version = any_version();
+    let mut cipher = ModelCipher::aes_siv_like();
+    cipher.decrypt_ok = kani::any();
+    let body: [u8; 4] = kani::any();
+    cipher.plaintext = [0x02, 0x04, 0x00, 0x08, body[0], body[1], body[2], body[3]];
+    cipher.plaintext_len = 8;
+    DEC_CALLS.store(0, Relaxed);
+    let res = ExtensionFieldData::deserialize(&data, HDR, &cipher, version);
+    let base = data.as_ptr() as usize;
+    assert!(DEC_CALLS.load(Relaxed) == 1);
+    // aad == everything before the authenticator field
+    assert!(DEC_AAD.0.load(Relaxed) == base && DEC_AAD.1.load(Relaxed) == HDR + 8);
+    // nonce / ciphertext == exactly the declared sub-slices
+    assert!(DEC_NONCE.0.load(Relaxed) == base + HDR + 16 && DEC_NONCE.1.load(Relaxed) == 16);
+    assert!(DEC_CT.0.load(Relaxed) == base + HDR + 32 && DEC_CT.1.load(Relaxed) == 4);
+    match res {
+        Ok(r) => {
+            assert!(cipher.decrypt_ok);
+            assert!(r.cookie.is_none() && r.remaining_bytes.is_empty() && r.efdata.untrusted.is_empty());
+            assert!(r.efdata.authenticated.len() == 1 && r.efdata.encrypted.len() == 1);
+            assert!(r.efdata.authenticated[0] == ExtensionField::UniqueIdentifier(Cow::Borrowed(&data[HDR + 4..HDR + 8])));
+            assert!(r.efdata.encrypted[0] == ExtensionField::NtsCookie(Cow::Borrowed(&body[..])));
+        }
+        Err(ParsingError::DecryptError(inv)) => {
+            assert!(!cipher.decrypt_ok);
+            assert!(inv.efdata.authenticated.is_empty() && inv.efdata.encrypted.is_empty());
+            assert!(inv.efdata.untrusted.len() == 2);
+            assert!(matches!(inv.efdata.untrusted[1], ExtensionField::InvalidNtsEncryptedField));
+        }
+        Err(_) => panic!("a well-formed layout is never a length error"),
+    }
+    kani::cover!(cipher.decrypt_ok && version == V4, "success reachable");
+    kani::cover!(!cipher.decrypt_ok && version == V5, "failure reachable");
+}
+
+/// RawEncryptedField level (quick): for an authenticator body with nonce length 16 and ciphertext
+/// length 4 (symbolic contents), `from_message_bytes` + `decrypt` hand the cipher exactly
+/// nonce == body[4..20], ciphertext == body[20..24] and the caller's aad slice (same pointers and
+/// lengths); a failing cipher gives Err(DecryptError(InvalidNtsEncryptedField)) -- never fields;
+/// a succeeding one gives the decoded plaintext (here empty). The call site in
+/// ExtensionFieldData::deserialize (aad = &data[..header_size + offset]; on error push
+/// InvalidNtsEncryptedField, clear is_valid_nts, `continue` BEFORE anything is promoted to
+/// `authenticated`) is pinned by anchors in units/C25.json; the whole function is checked in the
+/// thorough-tier harnesses.
+#[kani::proof]
+#[kani::unwind(6)]
+#[kani::stub(core::str::from_utf8, from_utf8_model)]
+fn c25_b_raw_encrypted_field_decrypt() {
+    let mut body: [u8; 24] = kani::any();
+    body[..4].copy_from_slice(&[0x00, 16, 0x00, 4]);
+    let aad: [u8; 56] = kani::any();
+    let mut cipher = ModelCipher::aes_siv_like();
+    cipher.decrypt_ok = kani::any();
+    let enc = RawEncryptedField::from_message_bytes(&body).unwrap();
+    DEC_CALLS.store(0, Relaxed);
+    let res = enc.decrypt(&cipher, &aad, any_version());
+    assert!(DEC_CALLS.load(Relaxed) == 1);
+    assert!(DEC_NONCE.0.load(Relaxed) == body.as_ptr() as usize + 4 && DEC_NONCE.1.load(Relaxed) == 16);
+    assert!(DEC_CT.0.load(Relaxed) == body.as_ptr() as usize + 20 && DEC_CT.1.load(Relaxed) == 4);
+    assert!(DEC_AAD.0.load(Relaxed) == aad.as_ptr() as usize && DEC_AAD.1.load(Relaxed) == 56);
+    match res {
+        Ok(fields) => assert!(cipher.decrypt_ok && fields.is_empty()),
+        Err(ParsingError::DecryptError(ExtensionField::InvalidNtsEncryptedField)) => assert!(!cipher.decrypt_ok),
+        Err(_) => panic!("unexpected error kind"),
+    }
+    kani::cover!(cipher.decrypt_ok, "success reachable");
+    kani::cover!(!cipher.decrypt_ok, "failure reachable");
+}
+/// canary (false claim): a failed decrypt still yields fields
+#[kani::proof]
+#[kani::unwind(6)]
+#[kani::stub(core::str::from_utf8, from_utf8_model)]
+fn c25_canary_failed_decrypt_accepted() {
+    let mut body: [u8; 24] = kani::any();
+    body[..4].copy_from_slice(&[0x00, 16, 0x00, 4]);
+    let mut cipher = ModelCipher::aes_siv_like();
+    cipher.decrypt_ok = false;
+    let enc = RawEncryptedField::from_message_bytes(&body).unwrap();
+    assert!(enc.decrypt(&cipher, &[], V5).is_ok());
+}
+
+// ================================================================ C24: per-field round trip
+// Lengths and minimum sizes are ENUMERATED concretely (every value inside the bound), contents
+// and type ids are symbolic: with symbolic lengths CBMC also explores the encoders' error paths
+// (boxed io::Error with a bit-packed representation), which dominates the run time.
+
+fn put_field(f: &ExtensionField<'_>, min: u16, version: ExtensionHeaderVersion, out: &mut [u8]) -> (std::io::Result<()>, usize) {
+    let mut cur = Cursor::new(out);
+    let r = f.serialize(&mut cur, min, version);
+    (r, cur.position() as usize)
+}
+const MINS: [u16; 4] = [0, 4, 16, 28];
+
+// ================================================================ C14: size contracts of the encoders
+// Sizes are measured with a counting writer (Sink) over symbolic payload lengths 0..=1100 and
+// minimum sizes 0..=64. The unbounded version of these size contracts is a separate Verus lemma.
+
+/// SPEC: bytes on the wire of a field with `len` payload bytes, minimum size `min`
+fn wire_len(len: usize, min: u16) -> usize {
+    (core::cmp::max(len + 4, min as usize) + 3) / 4 * 4
+}
+/// SPEC: value of the length field
+fn length_field(len: usize, min: u16, version: ExtensionHeaderVersion) -> usize {
+    match version {
+        ExtensionHeaderVersion::V4 => wire_len(len, min),
+        ExtensionHeaderVersion::V5 => core::cmp::max(len + 4, min as usize),
+    }
+}
+/// oversize payloads are rejected with an error by framing and padding (no panic, no arithmetic
+/// overflow): the boundary values and usize::MAX, concretely.
+#[kani::proof]
+#[kani::unwind(6)]
+fn c14_tb_framing_rejects_oversize() {
+    for len in [65_532usize, 65_533, 65_536, 1 << 32, usize::MAX] {
+        let mut out = [0u8; 16];
+        let mut cur = Cursor::new(&mut out[..]);
+        assert!(ExtensionField::encode_framing(&mut cur, ExtensionFieldTypeId::NtsCookie, len, 16, V4).is_err());
+        assert!(ExtensionField::encode_padding(&mut cur, len, 16).is_err());
+        assert!(cur.position() == 0);
+    }
+    kani::cover!(true, "reachable");
+}
+/// the length field written by encode_framing over the FULL accepted domain (len <= 65531,
+/// min: u16, both versions): equals length_field(..) unless NTPv4 and max(len+4, min) is in
+/// 65533..=65535, where the u16 rounding wraps and 0 is written (complete; loop-free).
+#[kani::proof]
+fn c14_p_framing_length_field() {
+    let len: usize = kani::any();
+    let min: u16 = kani::any();
+    kani::assume(len <= 65_531);
+    let version = any_version();
+    let mut out = [0u8; 4];
+    let mut cur = Cursor::new(&mut out[..]);
+    assert!(ExtensionField::encode_framing(&mut cur, ExtensionFieldTypeId::NtsCookie, len, min, version).is_ok());
+    drop(cur);
+    let written = u16::from_be_bytes([out[2], out[3]]) as usize;
+    if version == V5 || core::cmp::max(len + 4, min as usize) <= 65_532 {
+        assert!(written == length_field(len, min, version));
+    } else {
+        assert!(written == 0); // V4, 65533..=65535: the u16 rounding wraps (see notes)
+    }
+    kani::cover!(len == 65_531 && version == V4, "wrap case reachable");
+}
+
+/// Abstract writer for the size contracts: counts bytes and keeps the first four (the field
+/// header). Implements the crate's NonBlockingWrite; no copying, so payload lengths up to 1100
+/// bytes (every cookie the 1024-byte buffer could ever hold) stay cheap.
+pub(crate) struct Sink {
+    pub n: usize,
+    pub head: [u8; 4],
+}
+impl std::io::Write for Sink {
+    fn write(&mut self, buf: &[u8]) -> std::io::Result<usize> {
+        let mut i = 0;
+        while i < 4 && i < buf.len() {
+            if self.n + i < 4 {
+                self.head[self.n + i] = buf[i];
+            }
+            i += 1;
+        }
+        self.n += buf.len();
+        Ok(buf.len())
+    }
+    fn flush(&mut self) -> std::io::Result<()> {
+        Ok(())
+    }
+}
+impl NonBlockingWrite for Sink {}
+const SIZE_MAX_LEN: usize = 1100;
+
+/// per kind (framing + payload + padding, i.e. encode_framing / encode_padding / write_zeros are
+/// exercised inside): bytes written == wire_len(len, min), type id and length field as specified,
+/// for EVERY payload length 0..=1100, every minimum size 0..=64, both versions.
+fn field_encoder_sizes(kind: u8) {
+    let buf = [0u8; SIZE_MAX_LEN];
+    let len: usize = kani::any();
+    kani::assume(len <= SIZE_MAX_LEN);
+    let min: u16 = kani::any();
+    kani::assume(min <= 64);
+    let version = any_version();
+    let t: u16 = kani::any();
+    let payload = &buf[..len];
+    let mut w = Sink { n: 0, head: [0; 4] };
+    let (res, type_id) = match kind {
+        0 => (ExtensionField::encode_unique_identifier(&mut w, payload, min, version), 0x104u16),
+        1 => (ExtensionField::encode_nts_cookie(&mut w, payload, min, version), 0x204),
+        2 => (ExtensionField::encode_unknown(&mut w, t, payload, min, version), t),
+        _ => (ExtensionField::encode_nts_cookie_placeholder(&mut w, len as u16, min, version), 0x304),
+    };
+    assert!(res.is_ok());
+    assert!(w.n == wire_len(len, min));
+    assert!(u16::from_be_bytes([w.head[0], w.head[1]]) == type_id);
+    assert!(u16::from_be_bytes([w.head[2], w.head[3]]) as usize == length_field(len, min, version));
+    kani::cover!(len == SIZE_MAX_LEN, "largest payload reachable");
+    kani::cover!(len == 0 && min == 28, "empty payload grown to 28 reachable");
+}
+#[kani::proof]
+#[kani::unwind(6)]
+fn c14_b_unique_identifier_size() {
+    field_encoder_sizes(0);
+}
+#[kani::proof]
+#[kani::unwind(6)]
+fn c14_b_nts_cookie_size() {
+    field_encoder_sizes(1);
+}
+#[kani::proof]
+#[kani::unwind(6)]
+fn c14_b_unknown_field_size() {
+    field_encoder_sizes(2);
+}
+// the placeholder writes its zeros in chunks of 32: 1100/32 + 1 iterations
+#[kani::proof]
+#[kani::unwind(38)]
+fn c14_tb_nts_cookie_placeholder_size() {
+    field_encoder_sizes(3);
+}
+#[kani::proof]
+#[kani::unwind(6)]
+fn c14_b_draft_identification_size() {
+    let id = crate::packet::v5::DRAFT_VERSION;
+    let min: u16 = kani::any();
+    kani::assume(min <= 64);
+    let version = any_version();
+    let mut w = Sink { n: 0, head: [0; 4] };
+    assert!(ExtensionField::encode_draft_identification(&mut w, id, min, version).is_ok());
+    assert!(w.n == wire_len(id.len(), min));
+    assert!(u16::from_be_bytes([w.head[2], w.head[3]]) as usize == length_field(id.len(), min, version));
+    kani::cover!(min == 4 && w.n == 28, "the 28-byte draft id field");
+}
+/// encode_padding_field(length): requires length >= 4 (the caller passes desired - written with
+/// both multiples of 4 and desired > written); then writes roundup4(length) bytes (min 4, NTPv5),
+/// every length 4..=1100.
+#[kani::proof]
+#[kani::unwind(38)]
+fn c14_tb_padding_field_size() {
+    let length: usize = kani::any();
+    kani::assume(length >= 4 && length <= SIZE_MAX_LEN);
+    let mut w = Sink { n: 0, head: [0; 4] };
+    assert!(ExtensionField::encode_padding_field(&mut w, length, 4, V5).is_ok());
+    assert!(w.n == (length + 3) / 4 * 4);
+    assert!(u16::from_be_bytes([w.head[0], w.head[1]]) == 0xF501 && u16::from_be_bytes([w.head[2], w.head[3]]) as usize == length);
+    kani::cover!(length == SIZE_MAX_LEN, "reachable");
+}
+/// canary: without the precondition (length < 4) the subtraction overflows (debug panic)
+#[kani::proof]
+#[kani::unwind(6)]
+fn c14_canary_padding_field_short() {
+    let mut w = Sink { n: 0, head: [0; 4] };
+    let _ = ExtensionField::encode_padding_field(&mut w, 3, 4, V5);
+}
+
+/// encode_encrypted with an AEAD whose interface behaves like AES-SIV (16-byte nonce, ciphertext
+/// = plaintext + 16): writes 8 + 16 + plaintext + 16 bytes where plaintext = sum of the inner
+/// fields' wire sizes (minimum size 0); header = (0x0404, total, 16, plaintext+16); the cipher got
+/// aad == everything written before the field; a buffer that is too small gives an error.
+/// Enumerated: 0 or 2 inner cookies of 5 bytes, 8 bytes before, exact / one-byte-short buffer, both versions.
+#[kani::proof]
+#[kani::unwind(14)]
+fn c14_tb_encode_encrypted_size() {
+    let buf: [u8; 8] = kani::any();
+    for version in [V4, V5] {
+        for n_fields in [0usize, 2] {
+            for inner_len in [5usize] {
+                for before in [8usize] {
+                    let plain = n_fields * ((inner_len + 4 + 3) / 4 * 4);
+                    let total = 8 + 16 + plain + 16;
+                    for cap in [before + total, before + total - 1] {
+                        let f = ExtensionField::NtsCookie(Cow::Borrowed(&buf[..inner_len]));
+                        let fields = [f.clone(), f];
+                        let mut out = [0xAAu8; 120];
+                        let mut cur = Cursor::new(&mut out[..cap]);
+                        cur.set_position(before as u64);
+                        let cipher = ModelCipher::aes_siv_like();
+                        ENC_CALLS.store(0, Relaxed);
+                        let res = ExtensionField::encode_encrypted(&mut cur, &fields[..n_fields], &cipher, version);
+                        let pos = cur.position() as usize;
+                        drop(cur);
+                        if before + total <= cap {
+                            assert!(res.is_ok());
+                            assert!(pos == before + total);
+                            assert!(ENC_CALLS.load(Relaxed) == 1 && ENC_PT_LEN.load(Relaxed) == plain && ENC_AAD.1.load(Relaxed) == before);
+                            assert!(out[before] == 0x04 && out[before + 1] == 0x04);
+                            assert!(u16::from_be_bytes([out[before + 2], out[before + 3]]) as usize == total);
+                            assert!(u16::from_be_bytes([out[before + 4], out[before + 5]]) == 16);
+                            assert!(u16::from_be_bytes([out[before + 6], out[before + 7]]) as usize == plain + 16);
+                        } else {
+                            assert!(res.is_err());
+                        }
+                    }
+                }
+            }
+        }
+    }
+    kani::cover!(true, "reachable");
+}
+
+/// LEMMA (complete over all cookie lengths 0..=65535, all gaps 1..=8, both NTS request shapes):
+/// with the cap computed in source.rs `handle_timer` (n = min(gap, (1024-300)/max(L,1), 255)),
+/// n >= 1 implies the request built by nts_poll_message(_v5) -- header 48, unique identifier
+/// wire_len(32,16), cookie wire_len(L,16), n-1 placeholders wire_len(L,16), (v5: draft id
+/// wire_len(23,16) and reference-id request 4+16), authenticator 8+16+16 -- is <= 1024 bytes.
+/// The per-field sizes are the proved contracts above; this is the arithmetic over them.
+#[kani::proof]
+fn c14_p_poll_request_fits_lemma() {
+    let l: u16 = kani::any();
+    let gap: usize = kani::any();
+    kani::assume(gap >= 1 && gap <= 8);
+    let v5: bool = kani::any();
+    let n = core::cmp::min(gap, core::cmp::min((1024 - 300) / core::cmp::max(l as usize, 1), u8::MAX as usize));
+    if n >= 1 {
+        let mut size = 48 + wire_len(32, 16) + wire_len(l as usize, 16) + (n - 1) * wire_len(l as usize, 16) + 8 + 16 + 16;
+        if v5 {
+            size += wire_len(23, 16) + 4 + 16;
+        }
+        assert!(size <= 1024);
+        assert!(size <= 940); // exact maximum (L = 89..=90, 8 cookies, NTPv5): 84 bytes of margin
+    } else {
+        assert!(l as usize > 724);
+    }
+    kani::cover!(n == 8 && l == 90 && v5, "eight cookies of 90 bytes reachable (940 bytes)");
+    kani::cover!(n == 1 && l == 724, "largest single cookie reachable");
+}
+#[kani::proof]
+fn c14_canary_poll_request_fits_without_cap() {
+    let l: u16 = kani::any();
+    let n: usize = 8;
+    kani::assume(l <= 724);
+    assert!(48 + wire_len(32, 16) + n * wire_len(l as usize, 16) + 40 <= 1024);
+}
 
 #[cfg(all(kani, test))]
 mod replay {
